@@ -154,6 +154,7 @@ type MirrorOpts struct {
 	DropField int // percent: drop a source-side field in the target (fine) or add one (missing source)
 	ReCase    int // percent: change the case of a field name
 	KeepArray bool // arrays stay arrays (map keys must stay comparable)
+	Literal   int  // percent: named slice/map/pointer type <-> its identical unnamed literal
 	ArrayFlip int // percent: slice<->array
 }
 
@@ -188,10 +189,19 @@ func (g *Gen) Mirror(src T, o MirrorOpts, depth int) T {
 		if r.Chance(15) {
 			return t // identical named type on both sides
 		}
+		if o.Literal > 0 && r.Chance(o.Literal) {
+			switch d.Under.(type) {
+			case Slice, Map, Ptr:
+				return d.Under // the identical unnamed type literal on the other side
+			}
+		}
 		return g.Declare("T", g.Mirror(d.Under, o, depth+1))
 	case Ptr:
 		return Ptr{g.Mirror(t.Elem, o, depth+1)}
 	case Slice:
+		if o.Literal > 0 && r.Chance(o.Literal) {
+			return g.Declare("L", t) // a named type with the identical literal as its underlying type
+		}
 		if r.Chance(o.ArrayFlip) {
 			return Array{2, g.Mirror(t.Elem, o, depth+1)}
 		}
